@@ -10,15 +10,23 @@
 (* equal the guard model of C07_Cases (bound in C07_Cases by INSTANCE-free *)
 (* re-statement below to keep this module small).                          *)
 (***************************************************************************)
-EXTENDS TraceBase, MSM
+EXTENDS TraceBase, MSMGuards
 
-VARIABLES l, bad
+VARIABLES l, bad, drift
 
 Ok(e) == e.panic = "" /\ ~e.timeout
 
-Init == l = 1 /\ bad = <<>>
+\* L1: for frames built from a mask shape, the decoder of the frame's own family accepts exactly when the guards say so
+Conforms(e) ==
+    e.fam \in {"msm4", "msm7"} /\ e.panic = "" /\ ~e.timeout =>
+        LET model == DecodeAccept(e.type, e.len, e.nsat, e.nsig, e.ncell, e.flag) IN
+        IF e.fam = "msm7" THEN e.acc7 = model ELSE e.acc4 = model
+
+Init == l = 1 /\ bad = <<>> /\ drift = <<>>
 Next == /\ l <= Len(Trace)
         /\ l' = l + 1
         /\ bad' = IF Ok(Trace[l]) \/ Len(bad) >= MaxBad THEN bad ELSE Append(bad, l)
-Rec == Note(l, bad)
+        /\ drift' = IF Conforms(Trace[l]) \/ Len(drift) >= MaxBad THEN drift ELSE Append(drift, l)
+Rec == Note(l, bad) /\ TLCSet(3, drift)
+VerdictC07 == PrintT(<<"BADK", "drift", TLCGet(3)>>) /\ Verdict
 =============================================================================
